@@ -7,7 +7,7 @@ CASES = {'quick': 4000, 'thorough': 60000}
 GATES = {
     'quick': {'evaluations': 15000, 'steps_changing_store': 9000, 'op_kinds_seen': 70, 'popped_nodes_checked': 150,
               'edits_through_inserted_nodes': 200, 'claim_steps': 800, 'token_steps': 800},
-    'thorough': {'evaluations': 800000, 'op_kinds_seen': 80, 'popped_nodes_checked': 5000},
+    'thorough': {'evaluations': 400000, 'op_kinds_seen': 80, 'popped_nodes_checked': 5000},
 }
 RULE = ('case = one accepted generated document (both attribution modes, half of them in 2..10-token blocks) and a history of 2..12 '
         '(thorough ..60) steps drawn online from the operation catalog (node/value properties, raw lists, filtered views, string views, '
